@@ -308,14 +308,12 @@ def fam_self(rng):
 
 
 def fam_degen(rng):
-    """valid but unusual: empty operands, empty rings, short rings, unclosed / repeated vertices, -0.0"""
+    """valid but unusual: empty operands, empty rings, unclosed rings, repeated vertices, -0.0, Polygon wrappers"""
     sq = [(0.0, 0.0), (2.0, 0.0), (2.0, 2.0), (0.0, 2.0)]
     sq2 = [(1.0, 1.0), (3.0, 1.0), (3.0, 3.0), (1.0, 3.0)]
     choices = [
         ('M', []),
         ('M', [[[]]]),
-        ('M', [[[(1.0, 1.0)]]]),
-        ('M', [[[(1.0, 1.0), (2.0, 2.0)]]]),
         ('M', [[sq]]),
         ('M', [[sq + [sq[0]]]]),
         ('M', [[[p for p in sq for _ in range(2)]]]),
@@ -340,7 +338,7 @@ def fam_ulp(rng):
     x0 = rng.choice([1.0, 0.3, 13.0, 1e3])
     k = [rng.randrange(-3, 4) for _ in range(8)]
     a = [(nudge(x0, k[0]), -5.0), (nudge(x0 + 1.0, k[1]), -5.0), (nudge(x0 + 1.0, k[2]), 5.0), (nudge(x0, k[3]), 5.0)]
-    y0 = rng.choice([0.0, 0.7, -1.0])
+    y0 = rng.choice([0.5, 0.7, -1.0])      # never 0.0: nudging it would leave the exponent range (N3)
     b = [(x0 - 4.0, nudge(y0, k[4])), (x0 + 4.0, nudge(y0, k[5])), (x0 + 4.0, nudge(y0 + 1.0, k[6])), (x0 - 4.0, nudge(y0 + 1.0, k[7]))]
     return ('M', [[a]]), ('M', [[b]]), {'family': 'ulp'}
 
